@@ -22,6 +22,7 @@ type Obligation struct {
 	Expect string // "unsat" normally; "sat" for covers
 	// replay info
 	Inputs []ReplayInput
+	Sig    *types.Signature
 	// results filled by the solver stage
 	Result  string
 	Backend string
@@ -34,6 +35,8 @@ type Obligation struct {
 type ReplayInput struct {
 	Name string
 	Val  Val
+	Pre  *Val // content of the pointee before the call (pointer-to-flat-struct parameters)
+	Post *Val // content of the pointee at the normal exit
 }
 
 // State is the symbolic memory at a program point.
